@@ -136,7 +136,9 @@ def handleRbf (j : Json) : Option Json := do
         let jac := (List.range nout).map (fun l =>
           rbfLinearize (tvr.getD l 1) tpr tiny e r.ds r.dN xpi xpm (gather (Wc.getD l []) r.idx))
         pure (jObj [("pred", jRats pred), ("jac", jMat jac)]))
-      pure (jObj [("ok", jBool true), ("q", Json.arr out.toArray)])
+      let absR (x : Rat) : Rat := if x < 0 then -x else x
+      let wmax := Wc.map (fun c => c.foldl (fun acc x => if acc < absR x then absR x else acc) 0)
+      pure (jObj [("ok", jBool true), ("q", Json.arr out.toArray), ("wmax", jRats wmax)])
 
 def handleKriging (j : Json) : Option Json := do
   let ymean ← fieldRats? j "ymean"
